@@ -98,6 +98,7 @@ def interpretations():
         # Skolem witnesses, interpreted as their axioms intend: an element listed more than once / a member of a that is not in b (if any)
         f"w01_{n}": lambda b: next((k for k, v in sorted(b.d.items()) if v > 1 or v < 0), 0),
         f"subset_witness_{n}": lambda a, b: next((k for k in sorted(a.d) if a.get(k) and not b.get(k)), 0),
+        f"some_{n}": lambda s: next((k for k in sorted(s.d) if s.get(k)), 0),        # a member of the set if it has one
     })
     return f
 
